@@ -201,7 +201,7 @@ OPTION_VALUES = {
     "use_pngquant": [True, False],
     "use_zopflipng": [True, False],
     # the last value makes pngquant give up (exit 99, "quality too low"): the wrapper then has to fall back to the input
-    "pngquant_flags": ["--speed 1 --skip-if-larger --quality 85-95", "--speed 10 --quality 40-60", "--speed 11 --posterize 2", "--speed 11 --quality 100-100"],
+    "pngquant_flags": ["--speed 1 --skip-if-larger --quality 85-95", "--speed 10 --quality 40-60", "--speed 11 --posterize 2", "--speed 3 --quality 100-100"],
     "ignore_reuse_error": [True, False],
 }
 
